@@ -162,8 +162,12 @@ func runC10(c *Ctx) {
 	})
 	if c.Quick() {
 		parserModelCases(c, items, 6000)
+		gfmModelCases(c, items, 1500)
+		otherModelCases(c, items, 400)
 	} else {
 		parserModelCases(c, items, 60000)
+		gfmModelCases(c, items, 20000)
+		otherModelCases(c, items, 20000)
 	}
 	type rend struct{ unsafe, xhtml, hw bool }
 	lawSweepAll(c, cfgs, items, "option-orthogonality", func(d []byte) bool { return true }, func(m mdT, all []mdT, d []byte) (string, bool) {
